@@ -107,10 +107,11 @@ func vOpenIO(t *testing.T) (*bufio.Scanner, *json.Encoder, func()) {
 	if err != nil {
 		t.Fatal(err)
 	}
-	w := bufio.NewWriter(outf)
+	// unbuffered: every record reaches the file when it is written, so that after a crash of the process the
+	// records say which case was running
 	sc := bufio.NewScanner(in)
 	sc.Buffer(make([]byte, 1<<20), 1<<27)
-	return sc, json.NewEncoder(w), func() { w.Flush(); outf.Close(); in.Close() }
+	return sc, json.NewEncoder(outf), func() { outf.Close(); in.Close() }
 }
 
 func vHasKey(j interface{}, key string) bool {
